@@ -492,6 +492,15 @@ var subC18Misc = &fw.Sub{Name: "c18.misc", New: func() fw.Case { return &c18Misc
 			if l.stdout != d.stdout || l.code != d.code {
 				return fw.Failf("a BFILE that held a longer dump before is replaced: "+fw.Trunc(d.stdout, 200), "status %d %q %q", l.code, fw.Trunc(l.stdout, 200), fw.Trunc(l.stderr, 200))
 			}
+			// ... and holds exactly what the library dumps for that file (nothing left over from the old content)
+			if lp, perr := bcl.Parse([]byte(c18Progs["ok"]), "ok.bcl", bcl.OptOutput(io.Discard), bcl.OptLogger(io.Discard)); perr == nil {
+				var lb bytes.Buffer
+				lp.Dump(&lb)
+				got, _ := os.ReadFile(filepath.Join(dir, "o.bcb"))
+				if !bytes.Equal(got, lb.Bytes()) {
+					return fw.Failf(fmt.Sprintf("o.bcb rewritten by --bdump holds the library's dump of ok.bcl (%d bytes)", lb.Len()), "%d bytes, equal prefix %d", len(got), commonPrefix(got, lb.Bytes()))
+				}
+			}
 			fw.Tally("process_runs", 3)
 		}
 		fw.TallyOutcome("bdump-bload-roundtrip")
@@ -596,4 +605,12 @@ func init() {
 		},
 	})
 	_ = sort.Strings
+}
+
+func commonPrefix(a, b []byte) int {
+	n := 0
+	for n < len(a) && n < len(b) && a[n] == b[n] {
+		n++
+	}
+	return n
 }
